@@ -9,6 +9,7 @@ mod engine;
 mod props;
 mod refcodec;
 mod w2;
+mod w2r;
 mod w3;
 mod w4;
 
@@ -33,6 +34,7 @@ fn main() {
             "C03" | "C04" | "C07" | "C08" | "C14" => props::w4props::replay(&v),
             "C05" | "C11" => props::w2props::replay(&v),
             "C18" => props::c18::replay(&v),
+            "C12" | "C15" => props::w2rprops::replay(&v),
             "C20" => props::c20::replay(&v),
             "C19" => props::c19::replay(&v),
             "C01" | "C02" | "C06" | "C13" => props::w3props::replay(&v),
@@ -67,6 +69,8 @@ fn main() {
         "C05" => props::w2props::run_c05(tier),
         "C11" => props::w2props::run_c11(tier),
         "C18" => props::c18::run(tier),
+        "C12" => props::w2rprops::run_c12(tier),
+        "C15" => props::w2rprops::run_c15(tier),
         "C20" => props::c20::run(tier),
         "C19" => props::c19::run(tier),
         "C01" => props::w3props::run_ring(props::w3props::Which::C01, tier),
